@@ -331,8 +331,7 @@ def gen_history_spec(rng: random.Random) -> dict:
     base = gen_spec(rng, 's')
     donor = gen_spec(rng, 's')
     nasty = rng.choice([0.0, 0.3, 0.6])
-    base['ids'] = None
-    base['opts']['minimal'] = False
+    base['ids'] = None        # (the base map is exported in full whatever opts['minimal'] says; the option applies to the exports after the edits)
     emptied = [c for c in HIST_CONTAINERS if rng.random() < 0.6]
     for c in emptied:
         base[c] = []
@@ -958,7 +957,11 @@ def diff(a: Any, b: Any, path: tuple = ()) -> Iterator[tuple[tuple, Any, Any]]:
                 yield from diff(a[k], b[k], path + (k,))
     elif isinstance(a, (list, tuple)) and isinstance(b, (list, tuple)):
         if len(a) != len(b):
+            # one cause, one key: after a difference in length the elements are misaligned (a lost solid shifts all later
+            # ones), comparing them pairwise only produces noise -- unless the elements are plain leaves (numbers of a row)
             yield path + ('len',), len(a), len(b)
+            if any(isinstance(x, (dict, list, tuple)) for x in list(a) + list(b)):
+                return
         for i, (x, y) in enumerate(zip(a, b)):
             yield from diff(x, y, path + (i,))
     elif type(a) is not type(b) or a != b:
